@@ -48,6 +48,16 @@ Fixpoint fires_on_time (now weekend : Z) (fires : list Z) : Prop :=
   | t :: r => snd (counter_span now weekend) <= t < snd (counter_span now weekend) + 86400 /\
               fires_on_time t weekend r
   end.
+(* the delay rotate() arms its timer with: until the recorded end, at least a
+   minimum (one minute); any unit, [mn] in the same unit *)
+Definition timer_delay (mn now e : Z) : Z := Z.max (e - now) mn.
+(* a process whose timers fire exactly when due: n rotations after the first *)
+Fixpoint self_timed (n : nat) (now weekend : Z) : list Z :=
+  match n with
+  | O => []
+  | S k => let t := now + timer_delay 60 now (snd (counter_span now weekend)) in
+           t :: self_timed k t weekend
+  end.
 Fixpoint tiles (e : Z) (l : list (Z * Z)) : Prop :=
   match l with [] => True | s :: r => fst s = e /\ snd s = e + 7 * 86400 /\ tiles (snd s) r end.
 
